@@ -9,6 +9,7 @@ package clid
 import (
 	"bufio"
 	"context"
+	"crypto/tls"
 	"encoding/json"
 	"fmt"
 	"net"
@@ -18,6 +19,7 @@ import (
 	"time"
 
 	lime "github.com/takenet/lime-go"
+	"verif/harness/hs"
 )
 
 type Event struct {
@@ -93,12 +95,14 @@ func (r *rec) count(k string) int {
 }
 
 type rawServer struct {
-	ln   net.Listener
-	r    *rec
-	mu   sync.Mutex
-	n    int
-	cur  net.Conn
-	curN int
+	ln     net.Listener
+	r      *rec
+	tls    bool
+	mu     sync.Mutex
+	n      int
+	cur    net.Conn // what the session is written to (the TLS layer when upgraded)
+	curRaw net.Conn // the TCP connection underneath
+	curN   int
 }
 
 func (s *rawServer) serve() {
@@ -111,28 +115,51 @@ func (s *rawServer) serve() {
 	}
 }
 
-func (s *rawServer) session(c net.Conn) {
-	br := bufio.NewReader(c)
-	dec := json.NewDecoder(br)
+func (s *rawServer) session(raw net.Conn) {
+	c := raw
+	dec := json.NewDecoder(bufio.NewReader(c))
 	var first map[string]interface{}
 	c.SetReadDeadline(time.Now().Add(3 * time.Second))
 	if err := dec.Decode(&first); err != nil {
 		c.Close()
 		return
 	}
-	c.SetReadDeadline(time.Time{})
 	s.mu.Lock()
 	s.n++
 	n := s.n
 	s.mu.Unlock()
 	sid := fmt.Sprintf("5e551041-0000-4000-8000-%012x", n)
-	// a guest handshake cut short: straight to established
+	if s.tls {
+		// negotiation, TLS upgrade, authentication
+		var m map[string]interface{}
+		fmt.Fprintf(c, `{"id":%q,"from":"postmaster@example.com/srv","state":"negotiating","encryptionOptions":["tls"],"compressionOptions":["none"]}`+"\n", sid)
+		if err := dec.Decode(&m); err != nil {
+			c.Close()
+			return
+		}
+		fmt.Fprintf(c, `{"id":%q,"from":"postmaster@example.com/srv","state":"negotiating","encryption":"tls","compression":"none"}`+"\n", sid)
+		tc := tls.Server(raw, hs.ServerTLS)
+		tc.SetDeadline(time.Now().Add(3 * time.Second))
+		if err := tc.Handshake(); err != nil {
+			raw.Close()
+			return
+		}
+		c = tc
+		dec = json.NewDecoder(bufio.NewReader(c))
+		fmt.Fprintf(c, `{"id":%q,"from":"postmaster@example.com/srv","state":"authenticating","schemeOptions":["guest"]}`+"\n", sid)
+		if err := dec.Decode(&m); err != nil {
+			c.Close()
+			return
+		}
+	}
+	c.SetDeadline(time.Time{})
+	// (plain TCP: a guest handshake cut short, straight to established)
 	if _, err := c.Write([]byte(fmt.Sprintf(`{"id":%q,"from":"postmaster@example.com/srv","to":"cli@example.com/i","state":"established"}`+"\n", sid))); err != nil {
 		c.Close()
 		return
 	}
 	s.mu.Lock()
-	s.cur, s.curN = c, n
+	s.cur, s.curRaw, s.curN = c, raw, n
 	s.mu.Unlock()
 	s.r.log(Event{K: "session", N: n})
 	for {
@@ -173,6 +200,9 @@ func (s *rawServer) inject(fault string) {
 	if c == nil {
 		return
 	}
+	s.mu.Lock()
+	raw := s.curRaw
+	s.mu.Unlock()
 	s.r.log(Event{K: "fault", Res: fault, N: n})
 	sid := fmt.Sprintf("5e551041-0000-4000-8000-%012x", n)
 	switch fault {
@@ -181,9 +211,14 @@ func (s *rawServer) inject(fault string) {
 	case "fail":
 		c.Write([]byte(fmt.Sprintf(`{"id":%q,"from":"postmaster@example.com/srv","state":"failed","reason":{"code":1,"description":"gone"}}`+"\n", sid)))
 	case "abrupt":
-		c.Close()
+		raw.Close()
+	case "reset": // the peer's kernel answers with RST: the client reads ECONNRESET, not EOF
+		if tc, ok := raw.(*net.TCPConn); ok {
+			tc.SetLinger(0)
+		}
+		raw.Close()
 	case "half":
-		if tc, ok := c.(*net.TCPConn); ok {
+		if tc, ok := raw.(*net.TCPConn); ok {
 			tc.CloseWrite()
 		}
 	case "garbage":
@@ -216,7 +251,7 @@ func Replay(c Case) Result {
 		return res
 	}
 	defer ln.Close()
-	srv := &rawServer{ln: ln, r: r}
+	srv := &rawServer{ln: ln, r: r, tls: c.Cfg.Transport == "tls"}
 	go srv.serve()
 	addr := ln.Addr()
 
@@ -224,7 +259,10 @@ func Replay(c Case) Result {
 	cfg.Node = lime.Node{Identity: lime.Identity{Name: "cli", Domain: "example.com"}, Instance: "i"}
 	cfg.ChannelBufferSize = 4
 	cfg.NewTransport = func(ctx context.Context) (lime.Transport, error) {
-		return lime.DialTcp(ctx, addr, &lime.TCPConfig{ReadLimit: 4096})
+		return lime.DialTcp(ctx, addr, &lime.TCPConfig{ReadLimit: 4096, TLSConfig: hs.ClientTLS})
+	}
+	if c.Cfg.Transport == "tls" {
+		cfg.EncryptSelector = lime.TLSEncryptionSelector
 	}
 	cfg.Authenticator = func([]lime.AuthenticationScheme, lime.Authentication) lime.Authentication {
 		return &lime.GuestAuthentication{}
